@@ -49,7 +49,15 @@ def rule_T1(ctx, repo, eng):
     tr = Tracer(repo, fi.module, cls=fi.cls)
     paths = tr.trace(fi.node.body, {})
     n = 0
-    for p in paths:
+    extra_paths = []
+    work = list(paths)
+    k_ = 0
+    while k_ < len(work):
+        p = work[k_]
+        k_ += 1
+        if extra_paths:
+            work.extend(extra_paths)
+            extra_paths[:] = []
         if p.end not in ('return', 'fall'):
             continue
         n += 1
@@ -73,6 +81,23 @@ def rule_T1(ctx, repo, eng):
                 r.violated(key, site, 'GetTxid returns `%s`, not Hash(<witness-free serialisation>)' % norm(expr)[:80])
             continue
         ser = expr.args[0]
+        if isinstance(ser, ast.IfExp):
+            # Hash(A if c else B): decide the arm this path selects when the test is one of the assumed atoms, else both
+            tv = tr.tri(ser.test, p)
+            if tv is None:
+                t_ = norm(ser.test)
+                known_empty = WITNESS_EMPTY_ATOMS.get(t_)
+                if known_empty is not None:
+                    # judge the two arms as two paths
+                    for val, arm in ((True, ser.body), (False, ser.orelse)):
+                        q = p.fork()
+                        q.assume[t_] = val
+                        q.end, q.endnode = 'return', ast.copy_location(ast.Return(value=ast.Call(func=expr.func, args=[arm], keywords=[])), ret)
+                        work.append(q)
+                    n -= 1
+                    continue
+            else:
+                ser = ser.body if tv else ser.orelse
         if not (isinstance(ser, ast.Call) and isinstance(ser.func, ast.Attribute) and ser.func.attr == 'serialize'):
             r.violated(key, site, 'hashed value `%s` is not a serialisation' % norm(ser)[:60])
             continue
@@ -302,6 +327,8 @@ def rule_T6(ctx, repo):
     for fi in repo.iter_functions():
         if fi.cls is None:
             continue
+        if repo.known_functions is not None and fi.qualname not in repo.known_functions and any('helper %s ' % fi.qualname in l for l in repo.desugar_log):
+            continue  # a new private helper: analysed where the pre-pass inlined it
         rd, wr = c09.cache_use(fi)
         for slot in rd | wr:
             users.setdefault(slot, {}).setdefault(fi.name, []).append(fi)
